@@ -7,6 +7,8 @@ Helper lemmas for L6 `DtRes` (used by `RTV/Props/C06.lean`, `RTV/Props/C07.lean`
 * `Uni.Ascii` (what the theorems assume of the Unicode tables), `IsNum` (a digit string `int()` reads as `n`)
 * `splitOn` / `joinWith` algebra, `toPm_hh` (`to_pm` on `[T]hh[:…]`)
 * `Clock` (a written digit clock time) and `matchToTime_clock`, `resolveTime_clock`
+* dates: `Decodes` (what a layout's groups decode to), `matchToDate_of`, `resolveDate_valid`, `resolveDate_invalid`,
+  two-digit-year pivot lemmas
 -/
 namespace RTV.DtRes
 open RTV.Py RTV.Cal
@@ -386,4 +388,140 @@ theorem asciiUni_ascii : asciiUni.Ascii := by
   · intro k hk; simp [asciiUni]; omega
   · intro k hk; simp [asciiUni]; omega
   · intro k hk; simp [asciiUni]; omega
+
+/-! ### dates -/
+
+def sDate : Str := DType.name .date
+
+/-- `YYYY-MM-DD` -/
+def ymd (y mo d : Nat) : Str := fmtD 4 (y : Int) ++ sDash ++ fmtD 2 (mo : Int) ++ sDash ++ fmtD 2 (d : Int)
+
+theorem formatDate_eq (y mo d hh m s : Nat) : formatDate ⟨y, mo, d, hh, m, s⟩ = ymd y mo d := rfl
+
+theorem luisDate_eq (y mo d : Nat) (hy : 1 ≤ y) : luisDate (y : Int) (mo : Int) (d : Int) = ymd y mo d := by
+  have : ¬ ((y : Int) = -1) := by omega
+  simp [luisDate, this, ymd]
+
+theorem isNum_nonempty (u : Uni) (s : Str) (n : Nat) (h : IsNum u s n) : s.isEmpty = false := by
+  cases s with
+  | nil => have := h.nonblank; simp [blank_nil] at this
+  | cons a b => rfl
+
+theorem mkDate_ok (y mo d : Nat) (hv : (⟨y, mo, d⟩ : Date).valid = true) :
+    mkDateTime y mo d 0 0 0 = some ⟨y, mo, d, 0, 0, 0⟩ := by
+  have := mkDateTime_ok ⟨y, mo, d, 0, 0, 0⟩ (by simpa [DT.date] using hv) 0 0 0 (by omega) (by omega) (by omega)
+  simpa using this
+
+theorem mkDate_bad (y mo d : Nat) (hv : (⟨y, mo, d⟩ : Date).valid = false) (h m s : Int) :
+    mkDateTime y mo d h m s = none := by
+  have hv' : ¬ ((⟨y, mo, d⟩ : Date).valid = true) := by simp [hv]
+  rw [valid_iff] at hv'
+  unfold mkDateTime
+  rw [if_neg]
+  simp only [Int.toNat_natCast]
+  simp only at hv'
+  omega
+
+theorem safeCreate_valid (y mo d : Nat) (hv : (⟨y, mo, d⟩ : Date).valid = true) :
+    safeCreateFromMinValue y mo d = some ⟨y, mo, d, 0, 0, 0⟩ := by
+  simp [safeCreateFromMinValue, safeCreateFromValue, isValidDate, mkDate_ok y mo d hv, isValidTime]
+
+theorem safeCreate_invalid (y mo d : Nat) (hv : (⟨y, mo, d⟩ : Date).valid = false) :
+    safeCreateFromMinValue y mo d = some minValue := by
+  simp [safeCreateFromMinValue, safeCreateFromValue, isValidDate, mkDate_bad y mo d hv]
+
+/-- What a layout's named groups must decode to: the `month` group is a key of `month_of_year` with value `mo`,
+the `day` group a key of `day_of_month` with value `d`, no written-out year, the `year` group a digit string read as `y`. -/
+structure Decodes (u : Uni) (cfg : DateCfg) (g : DateGroups) (y mo d : Nat) : Prop where
+  month : lookup cfg.monthOfYear g.month = some mo
+  day : lookup cfg.dayOfMonth g.day = some d
+  noWritten : g.fullYear = []
+  year : IsNum u g.year y
+
+theorem decodeDate_of (u : Uni) (cfg : DateCfg) (g : DateGroups) (y mo d : Nat) (wy : Int) (h : Decodes u cfg g y mo d) :
+    decodeDate u cfg g wy = .ok ((mo : Int), (d : Int), pivotYear cfg y) := by
+  simp [decodeDate, h.month, h.day, h.noWritten, isNum_nonempty u _ _ h.year, h.year.numeric, h.year.int]
+
+theorem pivot_four (cfg : DateCfg) (y : Nat) (hy : 100 ≤ y) (hmax : cfg.maxTwoDigitYearFuture ≤ 100) :
+    pivotYear cfg y = y := by
+  unfold pivotYear
+  rw [if_neg (by omega), if_neg (by omega)]
+
+/-- `match_to_date` when the groups decode to year `yr` (after the pivot), month `mo`, day `d`, year ≥ 1. -/
+theorem matchToDate_of (u : Uni) (cfg : DateCfg) (g : DateGroups) (y mo d yr : Nat) (wy : Int) (ref : DT)
+    (h : Decodes u cfg g y mo d) (hp : pivotYear cfg y = yr) (h1 : 1 ≤ yr) :
+    matchToDate u cfg g wy ref =
+      .ok { success := true, timex := ymd yr mo d,
+            future := (safeCreateFromMinValue yr mo d).getD minValue,
+            past := (safeCreateFromMinValue yr mo d).getD minValue } := by
+  have n0 : ¬ ((yr : Int) = 0) := by omega
+  have n0' : yr ≠ 0 := by omega
+  simp [n0', matchToDate, decodeDate_of u cfg g y mo d wy h, hp, bind, Except.bind, pure, Except.pure, n0,
+    luisDate_eq yr mo d h1, generateDates]
+
+theorem ymd_eq (y mo d : Nat) (h1 : 1000 ≤ y) (h2 : y < 10000) :
+    ymd y mo d = (48 + y / 1000) :: (48 + y / 100 % 10) :: (48 + y / 10 % 10) :: (48 + y % 10) :: 45 ::
+      (fmtD 2 (mo : Int) ++ sDash ++ fmtD 2 (d : Int)) := by
+  simp [ymd, fmtD4 y h1 h2, sDash]
+
+theorem gen_date (y mo d : Nat) (h1 : 1000 ≤ y) (h2 : y < 10000) :
+    generateFromResolution (ymd y mo d) = some (ymd y mo d) := by
+  rw [ymd_eq y mo d h1 h2]
+  have : ¬ (y / 1000 = 0) := by omega
+  simp [generateFromResolution, startsWith, sDateMin_eq, this]
+
+theorem gen_min : generateFromResolution (formatDate minValue) = none := by decide
+
+/-- a valid four-digit-year date slot resolves to the single value `YYYY-MM-DD` -/
+theorem dtRes_date (u : Uni) (y mo d : Nat) (h1 : 1000 ≤ y) (h2 : y < 10000) :
+    dateTimeResolution u (toSlot .date (Res.mk true (ymd y mo d) [] ⟨y, mo, d, 0, 0, 0⟩ ⟨y, mo, d, 0, 0, 0⟩)) =
+      .ok (some [{ timex := ymd y mo d, type := sDate, value := some (ymd y mo d) }]) := by
+  simp [dateTimeResolution, toSlot, fmtFor, formatDate_eq, gen_date y mo d h1 h2, sDate, Ne.symm sAmPm_ne_nil]
+
+theorem dtRes_date_invalid (u : Uni) (timex : Str) :
+    dateTimeResolution u (toSlot .date (Res.mk true timex [] minValue minValue)) =
+      .ok (some [{ timex := timex, type := sDate, value := some sNotResolved }]) := by
+  simp [dateTimeResolution, toSlot, fmtFor, gen_min, sDate]
+
+
+theorem pivot_past (cfg : DateCfg) (yy : Nat) (h100 : yy < 100) (hmin : cfg.minTwoDigitYearPast ≤ yy) :
+    pivotYear cfg yy = ((1900 + yy : Nat) : Int) := by
+  unfold pivotYear
+  rw [if_pos (by omega)]
+  omega
+
+theorem pivot_future (cfg : DateCfg) (yy : Nat) (hmin : (yy : Int) < cfg.minTwoDigitYearPast)
+    (hmax : (yy : Int) < cfg.maxTwoDigitYearFuture) : pivotYear cfg yy = ((2000 + yy : Nat) : Int) := by
+  unfold pivotYear
+  rw [if_neg (by omega), if_pos (by omega)]
+  omega
+
+theorem pivot_gap (cfg : DateCfg) (yy : Nat) (hmin : (yy : Int) < cfg.minTwoDigitYearPast)
+    (hmax : cfg.maxTwoDigitYearFuture ≤ (yy : Int)) : pivotYear cfg yy = (yy : Int) := by
+  unfold pivotYear
+  rw [if_neg (by omega), if_neg (by omega)]
+
+/-- date entity whose groups decode (after the pivot) to the valid date `yr-mo-d`, 1000 ≤ yr ≤ 9999 -/
+theorem resolveDate_valid (u : Uni) (cfg : DateCfg) (g : DateGroups) (y mo d yr : Nat) (wy : Int) (ref : DT)
+    (h : Decodes u cfg g y mo d) (hp : pivotYear cfg y = yr) (h1 : 1000 ≤ yr) (h2 : yr < 10000)
+    (hv : (⟨yr, mo, d⟩ : Date).valid = true) :
+    resolveDate u cfg g wy ref = .ok (some [{ timex := ymd yr mo d, type := sDate, value := some (ymd yr mo d) }]) := by
+  simp only [resolveDate, matchToDate_of u cfg g y mo d yr wy ref h hp (by omega), safeCreate_valid yr mo d hv, bind,
+    Except.bind, Option.getD_some]
+  exact dtRes_date u yr mo d h1 h2
+
+/-- … and to a day that does not exist -/
+theorem resolveDate_invalid (u : Uni) (cfg : DateCfg) (g : DateGroups) (y mo d yr : Nat) (wy : Int) (ref : DT)
+    (h : Decodes u cfg g y mo d) (hp : pivotYear cfg y = yr) (h1 : 1 ≤ yr)
+    (hv : (⟨yr, mo, d⟩ : Date).valid = false) :
+    resolveDate u cfg g wy ref = .ok (some [{ timex := ymd yr mo d, type := sDate, value := some sNotResolved }]) := by
+  simp only [resolveDate, matchToDate_of u cfg g y mo d yr wy ref h hp h1, safeCreate_invalid yr mo d hv, bind,
+    Except.bind, Option.getD_some]
+  exact dtRes_date_invalid u (ymd yr mo d)
+
+/-- the number a key starts with (`5th` ↦ 5, `05` ↦ 5, `may` ↦ none): specification of ordinal-suffixed keys -/
+def leadingNum (s : Str) : Option Nat :=
+  let ds := s.takeWhile (fun c => 48 ≤ c && c ≤ 57)
+  if ds.isEmpty then none else some (ds.foldl (fun a c => a * 10 + (c - 48)) 0)
+
 end RTV.DtRes
